@@ -185,6 +185,43 @@ fn drive_tpl(vectors: Option<&str>, corpus: &str, rng: &mut Rng, thorough: bool,
 
 // ------------------------------------------------------------------------------------------------
 // C07, "or the transformed string": fix templates that use variables produced by `transform`, in the string form and
+/// "rewriting a node to itself is a no-op", with every variable of the fix passed through a transformation that changes
+/// nothing (a `replace` whose expression matches nothing): single and multi-node captures, on one line or several,
+/// at several indentations.  The transformed string stands where the captured text would stand.
+fn selfx_records(w: &mut NdWriter) -> usize {
+  let lang = SupportLang::JavaScript;
+  let rule = json!({"id": "r", "language": "JavaScript", "rule": {"pattern": "function $F() { $$$BODY }"},
+    "transform": {"NEW": {"replace": {"source": "$$$BODY", "replace": "@@never@@", "by": ""}},
+                  "NAME": {"replace": {"source": "$F", "replace": "@@never@@", "by": ""}}},
+    "fix": "function $NAME() {\n  $NEW\n}"});
+  let rule1 = json!({"id": "r", "language": "JavaScript", "rule": {"pattern": "wrap($A)"},
+    "transform": {"SAME": {"replace": {"source": "$A", "replace": "@@never@@", "by": ""}}}, "fix": "wrap($SAME)"});
+  let globals = ast_grep_config::GlobalRules::default();
+  let mut n = 0;
+  for ind in [0usize, 2, 4, 6] {
+    let i = " ".repeat(ind);
+    let cases: Vec<(&Value, String)> = vec![
+      (&rule, format!("if (x) {{\n{i}function f() {{\n{i}  foo(\n{i}    1\n{i}  );\n{i}  bar(2);\n{i}}}\n}}\n")),
+      (&rule, format!("{i}function g() {{\n{i}  one();\n{i}}}\n")),
+      (&rule, format!("{i}function h() {{\n{i}  if (a) {{\n{i}    b();\n{i}  }}\n{i}  c(\"é\");\n{i}}}\n")),
+      (&rule1, format!("{i}v = wrap({{\n{i}  a: 1,\n{i}  b: [\n{i}    2\n{i}  ]\n{i}}});\n")),
+      (&rule1, format!("{i}wrap(single);\n")),
+    ];
+    for (k, (doc, src)) in cases.iter().enumerate() {
+      let Ok(cfgs) = ast_grep_config::from_yaml_string::<SupportLang>(&serde_json::to_string(doc).unwrap(), &globals) else { continue };
+      let cfg = &cfgs[0];
+      let g = lang.ast_grep(src.as_str());
+      let Some(nm) = g.root().find(&cfg.matcher) else { continue };
+      let Some(fixer) = cfg.matcher.fixer.as_ref() else { continue };
+      let out = catch_unwind(AssertUnwindSafe(|| fixer.generate_replacement(&nm)));
+      w.put(&json!({"mode": "selfx", "id": format!("selfx-{ind}-{k}"), "lang": "JavaScript", "src": chars(src), "matched": chars(&nm.text()),
+        "panic": out.is_err(), "out": chars(&String::from_utf8_lossy(&out.unwrap_or_default()))}));
+      n += 1;
+    }
+  }
+  n
+}
+
 // in the object form of `fix` (with and without expansions); values are single-line, so no indentation is involved.
 fn tplx_records(w: &mut NdWriter) -> usize {
   let lang = SupportLang::JavaScript;
@@ -533,6 +570,7 @@ pub fn drive(tpl_vectors: Option<&str>, edit_vectors: Option<&str>, corpus: &str
     summ["tpl_vectors"] = json!(nv);
     summ["tpl_corpus"] = json!(nc);
     summ["tpl_transformed"] = json!(tplx_records(&mut w));
+    summ["self_rewrite_through_identity_transforms"] = json!(selfx_records(&mut w));
   }
   if which != "c07" {
     let cases = edit_cases(edit_vectors, corpus, &mut rng, thorough);
